@@ -177,7 +177,12 @@ type recorded struct {
 }
 
 func recordSession(c *fw.Ctx, o scen.ScenarioOpts) *recorded {
-	sc := scen.DrawScenario(c, o)
+	var sc *scen.Scenario
+	if c.S.Draw(6, "toy") == 5 {
+		sc = scen.DrawToy(c, 2) // round shapes no shipped protocol has
+	} else {
+		sc = scen.DrawScenario(c, o)
+	}
 	ref := scen.NewSession(c, "run", sc.Mk(), nil)
 	ref.Net.Policy = sim.FIFO{}
 	ref.Net.Run()
@@ -251,6 +256,7 @@ func runC17Sequence(c *fw.Ctx) {
 	st := lcState{}
 	garbageAt := map[int]bool{}
 	doomed := false
+	seenValue := false
 	var trace []string
 	sigBase := fmt.Sprintf("%s/%s", rec.sc.Proto, rec.sc.Kind)
 	if rec.sc.Kind == scen.KXor {
@@ -301,8 +307,11 @@ func runC17Sequence(c *fw.Ctx) {
 			return false
 		}
 		got := classify(v, e)
-		if doomed && st.phase == 0 && got == "error" {
+		if doomed && !seenValue && st.phase != 2 && got == "error" {
 			st.phase = 2 // the queued undecodable message was judged on entering its round
+		}
+		if got == "value" {
+			seenValue = true
 		}
 		want := [...]string{"notfinished", "value", "error"}[st.phase]
 		if got != want {
@@ -423,6 +432,27 @@ func runC17Sequence(c *fw.Ctx) {
 				return
 			}
 			c.Fault("duplicate_accept", 1)
+			if garbageAt[i] && st.phase == 0 {
+				// m_i itself was never delivered (garbage went in its place): if the handler had dropped
+				// the garbage, this "duplicate" is the first genuine copy and the session may go on. As
+				// for the garbage itself the model follows the handler's verdict and demands consistency.
+				var v interface{}
+				var e error
+				if call("Result", func() { v, e = h.Result() }) {
+					return
+				}
+				switch classify(v, e) {
+				case "error":
+					st.phase = 2
+				case "value":
+					st.phase = 1
+				default:
+					if _, st2 := lcStep(st, lcIn{op: "accept", idx: i, all: all}, ""); st2.phase == 0 {
+						st = st2
+						garbageAt[i] = false
+					}
+				}
+			}
 		default:
 			if next < nGenuine {
 				if !deliver(next) {
